@@ -33,6 +33,56 @@ Proof. unfold unit4, C01_q2R_v1_batch_R. route. Qed.
 Lemma q2R_v2_batch_spec w x y z : unit4 w x y z -> C01_q2R_v2_batch_R w x y z = Val (Rspec [w;x;y;z]).
 Proof. unfold unit4, C01_q2R_v2_batch_R. route. Qed.
 
+(* batch routes with N = 4 and N = 3 rows: row i of the result is the textbook matrix of row i *)
+Definition R4 (w0 x0 y0 z0 w1 x1 y1 z1 w2 x2 y2 z2 w3 x3 y3 z3 : R) : list R :=
+  Rspec [w0;x0;y0;z0] ++ Rspec [w1;x1;y1;z1] ++ Rspec [w2;x2;y2;z2] ++ Rspec [w3;x3;y3;z3].
+Definition R3 (w0 x0 y0 z0 w1 x1 y1 z1 w2 x2 y2 z2 : R) : list R :=
+  Rspec [w0;x0;y0;z0] ++ Rspec [w1;x1;y1;z1] ++ Rspec [w2;x2;y2;z2].
+Ltac uring1 := first [ ring | solve [field] | match goal with H : ?a * ?a = _ |- _ => ring [H] end
+                     | match goal with H : ?a * ?a = _ |- _ => solve [field_simplify_eq; [ring [H] | try lra ..]] end ].
+Ltac norm1' :=
+  repeat (match goal with
+  | |- context [sqrt ?e] =>
+      let H := fresh in assert (H : e = 1) by (div1; uring1); rewrite H; clear H; rewrite sqrt_1
+  end; div1).
+Ltac gate_abs0' :=
+  match goal with
+  | |- context [Rle_dec (Rabs ?e) ?c] =>
+      let H := fresh in assert (H : Rabs e <= c) by (replace e with 0 by uring1; rewrite Rabs_R0; lra);
+      destruct (Rle_dec (Rabs e) c); [clear H|contradiction]
+  end.
+Ltac routeN := intros; orient_unit; cbv zeta; norm1'; repeat gate_01; repeat gate_abs0';
+               cbv [R4 R3 app]; unfold_rot; val_eq; uring1.
+
+Lemma QA_to_DCM_N4_spec w0 x0 y0 z0 w1 x1 y1 z1 w2 x2 y2 z2 w3 x3 y3 z3 :
+  unit4 w0 x0 y0 z0 -> unit4 w1 x1 y1 z1 -> unit4 w2 x2 y2 z2 -> unit4 w3 x3 y3 z3 ->
+  C01_QA_to_DCM_N4_R w0 x0 y0 z0 w1 x1 y1 z1 w2 x2 y2 z2 w3 x3 y3 z3 = Val (R4 w0 x0 y0 z0 w1 x1 y1 z1 w2 x2 y2 z2 w3 x3 y3 z3).
+Proof. unfold unit4, C01_QA_to_DCM_N4_R. routeN. Qed.
+Lemma DCM_fromq_batch_N4_spec w0 x0 y0 z0 w1 x1 y1 z1 w2 x2 y2 z2 w3 x3 y3 z3 :
+  unit4 w0 x0 y0 z0 -> unit4 w1 x1 y1 z1 -> unit4 w2 x2 y2 z2 -> unit4 w3 x3 y3 z3 ->
+  C01_DCM_fromq_batch_N4_R w0 x0 y0 z0 w1 x1 y1 z1 w2 x2 y2 z2 w3 x3 y3 z3 = Val (R4 w0 x0 y0 z0 w1 x1 y1 z1 w2 x2 y2 z2 w3 x3 y3 z3).
+Proof. unfold unit4, C01_DCM_fromq_batch_N4_R. routeN. Qed.
+Lemma q2R_v1_batch_N4_spec w0 x0 y0 z0 w1 x1 y1 z1 w2 x2 y2 z2 w3 x3 y3 z3 :
+  unit4 w0 x0 y0 z0 -> unit4 w1 x1 y1 z1 -> unit4 w2 x2 y2 z2 -> unit4 w3 x3 y3 z3 ->
+  C01_q2R_v1_batch_N4_R w0 x0 y0 z0 w1 x1 y1 z1 w2 x2 y2 z2 w3 x3 y3 z3 = Val (R4 w0 x0 y0 z0 w1 x1 y1 z1 w2 x2 y2 z2 w3 x3 y3 z3).
+Proof. unfold unit4, C01_q2R_v1_batch_N4_R. routeN. Qed.
+Lemma q2R_v2_batch_N4_spec w0 x0 y0 z0 w1 x1 y1 z1 w2 x2 y2 z2 w3 x3 y3 z3 :
+  unit4 w0 x0 y0 z0 -> unit4 w1 x1 y1 z1 -> unit4 w2 x2 y2 z2 -> unit4 w3 x3 y3 z3 ->
+  C01_q2R_v2_batch_N4_R w0 x0 y0 z0 w1 x1 y1 z1 w2 x2 y2 z2 w3 x3 y3 z3 = Val (R4 w0 x0 y0 z0 w1 x1 y1 z1 w2 x2 y2 z2 w3 x3 y3 z3).
+Proof. unfold unit4, C01_q2R_v2_batch_N4_R. routeN. Qed.
+Lemma QA_to_DCM_N3_spec w0 x0 y0 z0 w1 x1 y1 z1 w2 x2 y2 z2 :
+  unit4 w0 x0 y0 z0 -> unit4 w1 x1 y1 z1 -> unit4 w2 x2 y2 z2 ->
+  C01_QA_to_DCM_N3_R w0 x0 y0 z0 w1 x1 y1 z1 w2 x2 y2 z2 = Val (R3 w0 x0 y0 z0 w1 x1 y1 z1 w2 x2 y2 z2).
+Proof. unfold unit4, C01_QA_to_DCM_N3_R. routeN. Qed.
+Lemma DCM_fromq_batch_N3_spec w0 x0 y0 z0 w1 x1 y1 z1 w2 x2 y2 z2 :
+  unit4 w0 x0 y0 z0 -> unit4 w1 x1 y1 z1 -> unit4 w2 x2 y2 z2 ->
+  C01_DCM_fromq_batch_N3_R w0 x0 y0 z0 w1 x1 y1 z1 w2 x2 y2 z2 = Val (R3 w0 x0 y0 z0 w1 x1 y1 z1 w2 x2 y2 z2).
+Proof. unfold unit4, C01_DCM_fromq_batch_N3_R. routeN. Qed.
+Lemma q2R_v1_batch_N3_spec w0 x0 y0 z0 w1 x1 y1 z1 w2 x2 y2 z2 :
+  unit4 w0 x0 y0 z0 -> unit4 w1 x1 y1 z1 -> unit4 w2 x2 y2 z2 ->
+  C01_q2R_v1_batch_N3_R w0 x0 y0 z0 w1 x1 y1 z1 w2 x2 y2 z2 = Val (R3 w0 x0 y0 z0 w1 x1 y1 z1 w2 x2 y2 z2).
+Proof. unfold unit4, C01_q2R_v1_batch_N3_R. routeN. Qed.
+
 Definition routes : list (R -> R -> R -> R -> outcome R) :=
   [C01_Q_to_DCM_R; C01_Q_to_DCM_S_R; C01_QA_to_DCM_R; C01_DCM_q_R; C01_DCM_fromq_R; C01_DCM_fromq_batch_R;
    C01_q2R_v1_R; C01_q2R_v2_R; C01_q2R_v1_batch_R; C01_q2R_v2_batch_R].
